@@ -47,6 +47,7 @@ class Scope(FortranObj):
         self.parent = None
         self.contains_start = None
         self.implicit_line = None
+        self.implicit_use_count = 0
         self.FQSN: str = self.name.lower()
         if file_ast.enc_scope_name is not None:
             self.FQSN = f"{file_ast.enc_scope_name.lower()}::{self.name.lower()}"
@@ -69,6 +70,9 @@ class Scope(FortranObj):
     def set_implicit(self, implicit_flag, line_number):
         self.implicit_vars = implicit_flag
         self.implicit_line = line_number
+        # USE statements added from now on follow the IMPLICIT statement, also
+        # when `;` puts them on the same line
+        self.implicit_use_count = len(self.use)
 
     def mark_contains(self, line_number):
         if self.contains_start is not None:
@@ -213,9 +217,7 @@ class Scope(FortranObj):
 
     def check_use(self, obj_tree):
         errors = []
-        last_use_line = -1
         for use_stmnt in self.use:
-            last_use_line = max(last_use_line, use_stmnt.line_number)
             if type(use_stmnt) is Import:
                 if (self.parent is None) or (
                     self.parent.get_type() != INTERFACE_TYPE_ID
@@ -235,8 +237,9 @@ class Scope(FortranObj):
                     find_word=use_stmnt.mod_name,
                 )
                 errors.append(new_diag)
-        # Statements joined by `;` share a line, their order is then not known
-        if (self.implicit_line is not None) and (last_use_line > self.implicit_line):
+        if (self.implicit_line is not None) and (
+            len(self.use) > self.implicit_use_count
+        ):
             new_diag = Diagnostic(
                 self.implicit_line - 1,
                 message="USE statements after IMPLICIT statement",
